@@ -137,7 +137,7 @@ def _parse_cd_args(args: bytes) -> Tuple[int, int, bytes]:
     try:
         permissions, size, name = args.split(None, 2)
 
-        if b'/' in name or b'\\' in name or name == b'..':
+        if b'/' in name or b'\\' in name or name in (b'.', b'..'):
             raise _scp_error(SFTPBadMessage, 'Invalid filename')
 
         return int(permissions, 8), int(size), name
